@@ -87,6 +87,19 @@ G1cCase(rk, docs) ==
   IN [fam |-> "G1c", prog |-> Program(defs \o Helpers, <<>>), roots |-> IF rk = "posbox" THEN <<A0("L"), A0("Hold")>> ELSE <<A0("L")>>]
 G1c(z) == {G1cCase(rk, d) : rk \in RecKinds, d \in BOOLEAN}
 
+NoProg == [defs |-> <<>>, cfgs |-> <<>>]
+(* H1: hand-built registries as the repository's own tests build them - a namespaced definition that is not a struct or *)
+(* enum (the generation loop's "builtin" outcome); outside the well-formedness rule R2, judged for C02 / C10 only        *)
+H1Regs == {
+  << Entry(0, <<"m", "S">>, <<>>, [k |-> "comp", fields |-> <<F("a", 1, "Alias"), F("b", 3, "Num")>>], <<>>),
+     Entry(1, <<"m", "Alias">>, <<>>, [k |-> "seq", of |-> 2], <<>>),
+     Entry(2, <<>>, <<>>, [k |-> "prim", p |-> "u8"], <<>>),
+     Entry(3, <<"m", "n", "Num">>, <<>>, [k |-> "prim", p |-> "u64"], <<>>) >>,
+  << Entry(0, <<"m", "T">>, <<>>, [k |-> "tup", elems |-> <<1, 1>>], <<>>),
+     Entry(1, <<>>, <<>>, [k |-> "prim", p |-> "bool"], <<>>),
+     Entry(2, <<"m", "E">>, <<>>, [k |-> "var", variants |-> <<[name |-> "V", index |-> 0, fields |-> <<F("", 0, "T")>>, docs |-> <<>>]>>], <<>>) >> }
+H1(z) == {[fam |-> "H1", prog |-> NoProg, roots |-> <<>>, rawreg |-> r] : r \in H1Regs}
+
 (* G7: a substitutable generic Sub<A,B> (and the prelude BTreeMap) in every position: field, nested in *)
 (* Vec/Option/tuple/array, argument of another generic, nested in itself, in variants, under a parent   *)
 (* parameter, boxed; one position per program plus a combined one.                                       *)
@@ -193,9 +206,9 @@ G2Members == {P_Adt("FooG", <<u8>>), P_Adt("FooG", <<u16>>), P_Adt("FooG", <<boo
               P_Adt("FooV", <<u32>>), P_Adt("FooV", <<u8>>), P_Adt("FooG2", <<u8, bool>>), A0("FooR"), A0("FooR2"),
               P_Adt("FooA3", <<A0("C1"), u8, u16>>), P_Adt("FooA3", <<A0("C2"), u8, u16>>)}
 \* the (large) program is referenced by name so that the case records stay small: see ProgOf
-NoProg == [defs |-> <<>>, cfgs |-> <<>>]
 G2Case(roots) == [fam |-> "G2p", pid |-> "G2", prog |-> NoProg, roots |-> roots]
 ProgOf(c) == IF c.fam = "G2p" THEN G2Prog ELSE c.prog
+RegOf(c) == IF c.fam = "H1" THEN c.rawreg ELSE Register(ProgOf(c), c.roots).reg
 G2MembersSmall == {P_Adt("FooG", <<u8>>), P_Adt("FooG", <<u16>>), A0("FooC8"), A0("FooC16"), P_Adt("FooA", <<A0("C1")>>), P_Adt("FooA", <<A0("C2")>>),
                    P_Adt("FooV", <<u32>>), P_Adt("FooV", <<u8>>), A0("FooE"), A0("FooT")}
 TriplesSmall(z) == {q \in G2MembersSmall \X G2MembersSmall \X G2MembersSmall : q[1] # q[2] /\ q[1] # q[3] /\ q[2] # q[3]}
